@@ -24,15 +24,17 @@ pub fn panic_msg(p: Box<dyn std::any::Any + Send>) -> String {
 }
 
 /// poll a future once with a noop waker; a panic inside poll is returned as Err
-pub fn poll_once<T>(fut: &mut Pin<Box<dyn Future<Output = T> + Send + '_>>) -> Result<Poll<T>, String> {
+pub fn poll_once<T>(fut: &mut Pin<Box<dyn Future<Output = T> + '_>>) -> Result<Poll<T>, String> {
     let waker = Waker::noop();
     let mut cx = Context::from_waker(waker);
     catch_unwind(AssertUnwindSafe(|| fut.as_mut().poll(&mut cx))).map_err(panic_msg)
 }
 
 /// run a future to completion on the calling thread (bounded number of polls)
-pub fn block_on<T>(fut: impl Future<Output = T> + Send) -> Result<T, String> {
-    let mut fut: Pin<Box<dyn Future<Output = T> + Send + '_>> = Box::pin(fut);
+/// (no Send bound anywhere in the harness proper: whether the futures are Send is C18's question, asked by the
+/// probes crate, and must not decide whether the other checks can be built)
+pub fn block_on<T>(fut: impl Future<Output = T>) -> Result<T, String> {
+    let mut fut: Pin<Box<dyn Future<Output = T> + '_>> = Box::pin(fut);
     for _ in 0..1_000_000 {
         match poll_once(&mut fut)? {
             Poll::Ready(v) => return Ok(v),
